@@ -69,7 +69,10 @@ def run(ctx):
         hits = [x for x in ia if x[1] == TITLE[code]]
         on_line = [x for x in hits if want_line is None or int(x[4][0].split(".")[0]) == want_line]
         if kind == "invalid-jump-to-function":
-            on_line = hits       # reported at the entered function's first instruction (the jump is the related location)
+            # reported at the entered function's first instruction (the jump is the related location)
+            fl = L.index(marker.split(" ")[1] + ":") + 1
+            on_line = [x for x in hits if int(x[4][0].split(".")[0]) == fl]
+            want_line = fl
         for ex in extra:          # further places where the same violation occurs
             el = L.index(ex)
             if not [x for x in hits if int(x[4][0].split(".")[0]) == el]:
